@@ -323,6 +323,7 @@ package actions
 //@   ensures only_one_row: forall s Id :: !old(subscriptions.exists(s)) && subscriptions.exists(s) ==> err == nil && s == a.results.ID
 //@   ensures still_unique: err == nil ==> unique_sub_names() && subs_wf()
 //@   ensures topic_resolved: err == nil ==> topic_named(subscriptions.topic_id(a.results.ID), a.params.TopicName) && a.results.TopicID == subscriptions.topic_id(a.results.ID)
+//@   ensures result_entity: err == nil ==> a.results.Sub != nil && a.results.Sub.ID == a.results.ID
 //@   ensures config_stored: [C17] err == nil ==> (forall x Id :: x == a.results.ID ==>
 //@             subscriptions.ttl(x) == a.params.TTL && subscriptions.message_ttl(x) == a.params.MessageTTL &&
 //@             !subscriptions.ordered_delivery$null(x) && subscriptions.ordered_delivery(x) == a.params.OrderedDelivery &&
@@ -348,6 +349,7 @@ package actions
 //@   ensures created: err == nil ==> a.results != nil && (forall n Id :: n == a.results.SnapshotID ==> !old(snapshots.exists(n)) && snapshots.exists(n) &&
 //@             snapshots.name(n) == a.params.Name && sub_named(a.results.SubscriptionID, a.params.SubscriptionName) &&
 //@             snapshots.topic_id(n) == subscriptions.topic_id(a.results.SubscriptionID))
+//@   ensures result_entity: err == nil ==> a.results.Snapshot != nil && a.results.Snapshot.ID == a.results.SnapshotID
 //@   ensures name_taken: [C12] (exists n Id :: old(snapshots.exists(n)) && old(snapshots.name(n)) == a.params.Name) ==> err != nil && (err == ErrExists || dbfailed())
 //@   ensures watermark: err == nil ==> exists now clock :: forall n Id, s Id :: n == a.results.SnapshotID && s == a.results.SubscriptionID ==>
 //@             (forall d Id :: old(outstanding(d, now)) && deliveries.subscription_id(d) == s ==> snapshots.acked_messages_before(n) <= deliveries.published_at(d)) &&
